@@ -75,3 +75,16 @@ package dev
 //@   ensures[C14.a] err == nil ==> forall(i, 0, len(c.RawConfiguration), c.RawConfiguration[i] != nil) && forall(i, 0, len(c.RawConfiguration), forall(j, 0, len(c.RawConfiguration), i < j ==> c.RawConfiguration[i].id < c.RawConfiguration[j].id))
 //@   ensures[C14.e] err == nil ==> len(c.RawConfiguration) > 0
 //@   ensures[C14.e] err != nil ==> c == nil
+
+// Except hands exactly the two raw configurations, in this order, to the runtime's difference (whose
+// contract states which ids are kept) and returns exactly its result.
+//@ func (dev.Configuration).Except
+//@   props C14
+//@   requires rm != nil && forall(k, 0, len(c.RawConfiguration), c.RawConfiguration[k] != nil) && forall(k, 0, len(rm.RawConfiguration), rm.RawConfiguration[k] != nil)
+//@   ghost n Int = 0
+//@   ghost r Iface = nilI()
+//@   on call "c.RawConfiguration.Except"
+//@     assert[C14.b] recv == c.RawConfiguration && arg0 == rm.RawConfiguration && n == 0
+//@     set n = 1
+//@     after set r = res0
+//@   ensures[C14.b] n == 1 && result == r
